@@ -5,7 +5,7 @@ import CoclsModel.ThreadPoolProofsC
 namespace Cocls.Pool
 
 theorem inv_init (c : Cfg) (hout : c.dtorOutside = true) (hnw : 0 < c.nw) (hnt : c.nw ≤ c.nt)
-    (hb : c.hasB = true → c.nw < c.nt) : Inv c (init c) := by
+    (hb : c.hasB = true → c.nw < c.nt) (hcur : c.curNullOk = true) : Inv c (init c) := by
   constructor <;> (try simp only [init]) <;> (try dsimp only)
   all_goals (try assumption)
   all_goals (try (intros; first | rfl | omega | contradiction))
@@ -43,6 +43,24 @@ theorem inv_waitPass {c : Cfg} {s : State} {t f : Nat} (h : Inv c s) (hpc : s.pc
 
 section poolB
 set_option maxHeartbeats 4000000
+
+theorem inv_peekBegin {c : Cfg} {s : State} {t : Nat} {rest : List Act} {k : Peek} (h : Inv c s) (hpc : s.pc t = Pc.idle) :
+    Inv c { s with todo := upd s.todo t rest, pc := upd s.pc t (Pc.peekCS k) } := by
+  have hdq : s.dq t = [] := by
+    have := h.l_dqpc t; grind [Pc.inStop]
+  have htm : s.tmp t = [] := by
+    have := h.s_tmp_pc t; grind
+  inv_step h
+
+theorem inv_peekMove {c : Cfg} {s : State} {t : Nat} {p : Pc}
+    (h : Inv c s) (hpc : (∃ k, s.pc t = Pc.peekCS k) ∨ ∃ k r, s.pc t = Pc.peekDone k r)
+    (hp : p = Pc.idle ∨ ∃ k r, p = Pc.peekDone k r) : Inv c (setPc s t p) := by
+  have hdq : s.dq t = [] := by
+    have := h.l_dqpc t; grind [Pc.inStop]
+  have htm : s.tmp t = [] := by
+    have := h.s_tmp_pc t; grind
+  unfold setPc
+  rcases hpc with ⟨k, hpc⟩ | ⟨k, r, hpc⟩ <;> rcases hp with hp | ⟨k', r', hp⟩ <;> subst hp <;> inv_step h
 
 theorem inv_bBegin {c : Cfg} {s : State} {t : Nat} {rest : List Act} {isD : Bool} (h : Inv c s) (hpc : s.pc t = Pc.idle) :
     Inv c { s with todo := upd s.todo t rest, pc := upd s.pc t (Pc.bStopCS isD) } := by
@@ -138,6 +156,17 @@ theorem inv_stepPc {c : Cfg} {s : State} (h : Inv c s) (t k : Nat)
       · exact inv_waitBlock h hpc
     · exact inv_setFlag h
     · exact inv_waitSkip h
+    · split
+      · exact inv_peekBegin h hpc
+      · exact inv_waitSkip h
+    · split
+      · exact inv_peekBegin h hpc
+      · exact inv_waitSkip h
+    · split
+      · exact inv_peekBegin h hpc
+      · split
+        · exact inv_waitSkip h
+        · rename_i hn; exact absurd h.wf_cur hn
     · exact inv_bBegin h hpc
     · split
       · exact inv_waitSkip h
@@ -145,6 +174,17 @@ theorem inv_stepPc {c : Cfg} {s : State} (h : Inv c s) (t k : Nat)
   · rename_i j hpc; exact inv_enqCS h hpc (hmx (by rw [hpc]; rfl))
   · rename_i j acc hpc; exact inv_afterEnq h hpc
   · rename_i isD hpc; exact inv_stopCS h hpc (hmx (by rw [hpc]; rfl))
+  · rename_i pk hpc
+    unfold stepPeekCS
+    exact inv_peekMove h (Or.inl ⟨pk, hpc⟩) (Or.inr ⟨_, _, rfl⟩)
+  · rename_i pk r hpc
+    unfold stepPeekDone
+    split
+    · exact inv_peekMove h (Or.inr ⟨_, _, hpc⟩) (Or.inl rfl)
+    · exact inv_peekMove h (Or.inr ⟨_, _, hpc⟩) (Or.inl rfl)
+    · split
+      · exact inv_peekMove h (Or.inr ⟨_, _, hpc⟩) (Or.inl rfl)
+      · exact inv_newJob h (Or.inr ⟨r, hpc⟩)
   · rename_i f hpc; exact inv_waitPass h hpc
   · rename_i hpc; exact inv_stopJoin h hpc
   · rename_i hpc
